@@ -482,11 +482,12 @@ Proof.
   apply Hsub. clearbody cs1. clear Hsub.
   destruct cs1 as [|c1 cs1']; [contradiction|].
   destruct (step (c1 :: cs1') width) as [line rest] eqn:Es. cbn [fst snd] in Hl.
-  destruct (step_cut _ _ _ _ ltac:(discriminate) Es) as (mid & Ecs & _).
+  destruct (step_cut (c1 :: cs1') width line rest ltac:(discriminate) Es) as (mid & Ecs & _).
   rewrite Ecs, !concat_app.
   assert (Hrec : forall hl', In l (wrap_chunks f rest width hl') -> In c (concat line ++ concat mid ++ concat rest)).
   { intros hl' H. apply in_or_app. right. apply in_or_app. right. eapply IH; eassumption. }
   destruct line as [|x line]; [eapply Hrec; exact Hl|].
+  change (In l (concat (x :: line) :: wrap_chunks f rest width true)) in Hl.
   destruct Hl as [<-|Hl]; [apply in_or_app; left; exact Hc|eapply Hrec; exact Hl].
 Qed.
 
